@@ -56,6 +56,13 @@ func (s *segmentTimelineGenerator) addSegmentData(log *slog.Logger, item recSegD
 	return 0, nil
 }
 
+// setNrTracks sets the number of tracks that must have a segment for a sequence number to be complete.
+func (s *segmentTimelineGenerator) setNrTracks(nrTracks uint32) {
+	if s._started && nrTracks > s._nrTracks {
+		s._nrTracks = nrTracks
+	}
+}
+
 func (s *segmentTimelineGenerator) resize(newWindowSize uint32) {
 	for _, buf := range s.segDataBuffers {
 		buf.resize(newWindowSize)
